@@ -5,8 +5,10 @@
                             then the guard (no delivered built-in raises)  |  what runs per message
      enabled <cfg> <evs> -> the internal events that are enabled in the state reached, quiescent
    cfg      = attempts raises tokens
-              attempt = kind(0 feature,1 command) name(str) async params thr fid
+              attempt = kind(0 feature,1 command) name(str) async params hints thr fid
               params  = 0 | 1 is_ls annot(0 none,1 server,2 other);  thr = 0 none | 1 above | 2 below
+              hints   = typing.get_type_hints succeeds on the callable (Model.Dispatch.gsig)
+     sig params hints    -> has_ls_g, has_ls_param_or_annotation (see g), asks_server, sig_ok
    event    = 0 call | 1 t (TaskStep) | 2 t (LoopCb) | 3 j (JobStart) | 4 j (JobFinish)
    call     = 0 id folders | 1 | 2 u ver txt | 3 u ver txts | 4 u | 5 added removed | 6 v | 7 id |
               8 id cmd(str) a | 9 tok | 10 (0 | 1 id) nm(str) v
@@ -18,21 +20,27 @@ let next_params () = match next_int () with
   | 0 -> NoFirst
   | _ -> let l = next_bool () in
     let a = (match next_int () with 0 -> ANone | 1 -> AServer | _ -> AOther) in First (l, a)
+let asks : n list ref = ref []
 let next_attempt () =
   let kind = (match next_int () with 0 -> RFeature | _ -> RCommand) in
   let nm = Some (next_str ()) in
   let asy = next_bool () in
-  let ps = next_params () in
+  let first = next_params () in
+  let hints = next_bool () in
+  let g = { g_first = first; g_hints = hints } in
+  let ps = see g in
   let th = (match next_int () with 0 -> TNone | 1 -> TAbove | _ -> TBelow) in
   let hid = next_n () in
+  if asks_server first then asks := hid :: !asks;
   { a_kind = kind; a_name = nm; a_opt = ONone;
     a_fn = { f_id = hid; f_async = asy; f_params = ps; f_thread = false; f_reg = None };
     a_thr = th }
 let next_cfg () =
+  asks := [];
   let ats = read_list next_attempt in
   let rs = read_list next_n in
   let tk = read_list next_n in
-  { c_reg = registry_of ats; c_raises = rs; c_tokens = tk }
+  { c_reg = registry_of ats; c_raises = rs; c_tokens = tk; c_asks = !asks }
 let next_call () = match next_int () with
   | 0 -> let i = next_n () in let f = read_list next_n in CInitialize (i, f)
   | 1 -> CInitialized
@@ -118,7 +126,7 @@ let dispatch = function
     List.iter (fun (x : xmsg) ->
         put_bool x.xm_delivered; put_bool x.xm_ok; put_list put_xinv x.xm_expect; put_snap x.xm_ws;
         (match x.xm_reply with XNothing -> put_int 0 | XFrame f -> put_int 1; put_oframe f | XSilent -> put_int 2)) xs;
-    put_bool (all_ok c w0 ks);
+    put_bool (all_ok c w0 ks); put_bool (inj_ok c);
     put_str "|";
     (* what the code is known to run instead when a built-in raises (for classification only) *)
     let w = ref w0 in
@@ -131,6 +139,12 @@ let dispatch = function
     let s = run c evs in
     put_list (fun (k, i) -> put_int k; put_int i) (enabled s);
     put_bool (quiescent s)
+  | "sig" ->
+    let first = next_params () in
+    let hints = next_bool () in
+    let g = { g_first = first; g_hints = hints } in
+    put_bool (has_ls_g g); put_bool (has_ls_param_or_annotation (see g)); put_bool (asks_server first);
+    put_bool (sig_ok g)
   | "builtins" -> put_list put_name builtins
   | c -> failwith ("unknown command " ^ c)
 let () = main_loop dispatch
